@@ -6,9 +6,13 @@ mod ev;
 mod par;
 mod c02;
 mod c03;
+mod c05;
 mod c06;
 mod c07;
 mod c09;
+mod c10;
+mod c12;
+mod c13;
 mod chainx;
 mod corrupt;
 mod ledger;
@@ -49,7 +53,7 @@ pub trait Engine {
 }
 
 fn engines() -> Vec<Box<dyn Engine>> {
-	vec![Box::new(c02::C02), Box::new(c03::C03), Box::new(c06::C06), Box::new(c07::C07), Box::new(c09::C09)]
+	vec![Box::new(c02::C02), Box::new(c03::C03), Box::new(c05::C05), Box::new(c06::C06), Box::new(c07::C07), Box::new(c09::C09), Box::new(c10::C10), Box::new(c12::C12), Box::new(c13::C13)]
 }
 
 fn main() {
